@@ -135,8 +135,9 @@ C15_RefOnlyServed == \A k \in RKeys : ref[k].ver # 0 => Bucket(k) \in served
 RECURSIVE UpCode(_)
 UpCode(p0) ==
   Let1(p0, LAMBDA p :
-    IF Len(p) >= RDepth
-      THEN (IF BucketId(p) \in served /\ BucketId(p) \in Buckets THEN Node(bstore[BucketId(p)], p, RConf) ELSE Zero)
+    IF \E i \in 1..Len(p) : p[i] \notin RAlpha THEN Zero      \* no key of the model lives there
+    ELSE IF Len(p) >= RDepth
+      THEN (IF BucketId(p) \in served THEN Node(bstore[BucketId(p)], p, RConf) ELSE Zero)
       ELSE Let1(KidsBy(p, LAMBDA q : UpCode(q)),
                 LAMBDA kids : [count |-> KidsCount(kids), hash |-> KidsHash(kids, TRUE)]))
 C15_Upper ==
